@@ -2,6 +2,25 @@ package world
 
 import "verif/sim/core"
 
+func runC12(c *core.Ctx) {
+	switch c.Scenario {
+	case "clones":
+		RunClones(c)
+	case "operands":
+		RunOperands(c)
+	case "algorithm-inputs":
+		RunAlgorithmInputs(c)
+	case "iterator-clones":
+		RunIteratorClones(c)
+	case "scalar-clones":
+		RunScalarClones(c)
+	case "distribution-parameters":
+		RunDistributionParams(c)
+	default:
+		panic("unknown scenario " + c.Scenario)
+	}
+}
+
 func runC11(c *core.Ctx) {
 	switch c.Scenario {
 	case "sparse-vector":
@@ -74,5 +93,32 @@ func init() {
 		Caps:         map[string]int{"ops_per_run": 50, "dim": 12, "live_iterators": 3},
 		QuickRuns:    40000,
 		ThoroughRuns: 4000000,
+	})
+	core.Register(&core.Property{
+		ID:     "C12",
+		Level:  "exploration",
+		Engine: "B: shared-storage world simulator (copies, operands) + E: step clock (algorithm inputs)",
+		Scenarios: []core.Scenario{
+			{Name: "clones", Weight: 5},
+			{Name: "operands", Weight: 2},
+			{Name: "algorithm-inputs", Weight: 1},
+			{Name: "iterator-clones", Weight: 2},
+			{Name: "scalar-clones", Weight: 1},
+			{Name: "distribution-parameters", Weight: 1},
+		},
+		Run:      runC12,
+		StepUnit: "mutating operations on either side of a copy / library calls with snapshotted operands",
+		Rule: "clones: a source container (dense/sparse vector or matrix, any of 9 element types, possibly a nested Slice/T view, derivatives attached for real types, after a short random history) is copied by a drawn copy operation (Clone*, CloneConst*, CloneMagic*, AsDense*/AsSparse* to a drawn element type, clone of a slice); the copy must equal the source at creation, then the tape interleaves <=16 mutations of either side and the side that did not act must equal its own snapshot (values, derivatives, shape). operands: 2..8 arithmetic/iteration/print calls with fresh receivers; the operands must be unchanged. algorithm-inputs: 21 algorithm entry points, 1..3 calls per session with fresh or re-used nil-buffer InSitu objects under the step clock; every caller object of every call of the session must be unchanged. iterator-clones: up to 4 cursors (an iterator and clones of partially consumed iterators, 7 iterator kinds incl. joint iterators) advanced in a drawn interleaving; each must keep yielding the remaining part of the reference sequence. scalar-clones: scalar of any of 9 types (real ones with first/second derivatives) vs its copy under interleaved mutation. distribution-parameters: 12 scalar families; constructor arguments, GetParameters result, SetParameters argument and CloneScalarPdf are independent of the distribution. Non-trivial = at least 2 mutations (clones) / always (others). Distinct = hash of the sequence of observed states / of (call kind, storage kinds, element type, options).",
+		Assumptions: []string{
+			"values are small integers so that As-conversions between element types are exact",
+			"derivatives are compared only where the target type can carry them",
+			"gaussJordan.Run(a, x, b) is an in-place API by signature and is not part of the algorithm-inputs scenario",
+			"a sparse vector Slice is a snapshot by design (see DESIGN.md); clones of sparse slices are taken of the whole vector",
+		},
+		RealCode:     []string{"all container types and their Clone/As-conversions, arithmetic, iterators; algorithm/* entry points; verifhook.Tick (build tag verif)"},
+		Stubs:        []string{"objective functions of the optimizers (convex quadratics written with the library's AD scalars)"},
+		Caps:         map[string]int{"mutations_per_run": 16, "dim": 8, "matrix": 4, "ticks_per_loop_site": 3000},
+		QuickRuns:    40000,
+		ThoroughRuns: 3000000,
 	})
 }
